@@ -321,6 +321,7 @@ func main() {
 	exps := []time.Duration{-time.Second, 0, E, time.Duration(math.MaxInt64)} // the last one: "practically never" (the largest value the flags accept)
 	states := map[string]struct{}{}
 	nontrivial := map[string]struct{}{}
+	var nStates, nNontrivial int64
 	var i int64
 	for _, a := range exps {
 		for _, b := range exps {
@@ -330,15 +331,20 @@ func main() {
 					if !vrt.Mine(i) {
 						continue
 					}
-					explore(cfg{[4]time.Duration{a, b, cc, d}}, depth, states, nontrivial)
+					// the state keys carry the configuration, so they are counted per configuration and let go: kept for the
+					// whole run they exhausted the memory limit of a shard in the thorough tier (256 configurations, depth 8)
+					st, nt := map[string]struct{}{}, map[string]struct{}{}
+					explore(cfg{[4]time.Duration{a, b, cc, d}}, depth, st, nt)
+					nStates += int64(len(st))
+					nNontrivial += int64(len(nt))
 				}
 			}
 		}
 	}
 	exploreSiblings(depth+1, states, nontrivial)
 	res.Sample(map[string]any{"expiry": "c=10s g=0 s=-1s ms=10s", "sequence": []string{"dp:c", "dp:g", "step:E", "flush", "step:E+1ns", "flush", "flush"}})
-	res.States = int64(len(states))
-	res.DistinctNontrivial = int64(len(nontrivial))
+	res.States = nStates + int64(len(states))
+	res.DistinctNontrivial = nNontrivial + int64(len(nontrivial))
 	res.Traces = res.Evaluations
 	var ks []string
 	for k := range states {
